@@ -21,7 +21,10 @@ Record case := {
   c_ids : list N;                         (* every connection id used in the exact part, ascending *)
   c_trace : list (label * list N);
   c_after : list (N * list N);            (* 1 churn [peak; cnt; act; open]  2 stop [ok; cnt; act; gor]
-                                             3 close / 4 unexport [err; handles; attr; dir; pool; server] *)
+                                             3 close / 4 unexport [err; handles; attr; dir; pool; server]
+                                             5 stop / 6 close / 7 unexport with requests held in the backend
+                                             (oracle only, see after_ok; the LTS has no step for a request's
+                                             backend work, so there is no model side for these entries) *)
   c_nfs_ops : list nop }.                 (* what was done to the AbsfsNFS, in order (for the nfs model) *)
 
 Definition b2n (b : bool) : N := if b then 1 else 0.
@@ -71,6 +74,18 @@ Fixpoint after_walk (n : nfs) (ops : list nop) (i : N) (af : list (N * list N)) 
             end in
         let '(n', ops') := eat n ops in
         if list_eqb N.eqb (tl o) (nfs_obs n') then after_walk n' ops' (i + 1) rest else [(i, code_mismatch)]
+      else if (kind =? 6) || (kind =? 7) then
+        (* Close / Unexport with requests held in the backend: the nfs model follows (its Close / Unexport is in the
+           operation list) but nothing is compared - these entries are judged by the oracle only *)
+        let fix eat (n : nfs) (ops : list nop) : nfs * list nop :=
+            match ops with
+            | [] => (n, [])
+            | op :: r => match op with
+                         | NClose | NUnexport => (nfs_apply n op, r)
+                         | _ => eat (nfs_apply n op) r
+                         end
+            end in
+        let '(n', ops') := eat n ops in after_walk n' ops' (i + 1) rest
       else after_walk n ops (i + 1) rest
   end.
 
@@ -132,6 +147,18 @@ Definition after_ok (mx : Z) (e : N * list N) : bool :=
     (if (0 <? mx)%Z then (Z.of_N (nth_obs o 0) <=? mx)%Z else true) && (nth_obs o 1 =? nth_obs o 2) && (nth_obs o 1 =? nth_obs o 3)
   else if kind =? 2 then (* Stop returned: ok, cnt, act, goroutines *)
     (nth_obs o 0 =? 1) && (nth_obs o 1 =? 0) && (nth_obs o 2 =? 0) && (nth_obs o 3 =? 0)
+  else if kind =? 5 then
+    (* Stop called while requests were inside a backend call: [ok; backend calls of requests in flight at the return;
+       request goroutines; server goroutines; connCount; len(activeConns); modifying backend operations after the return].
+       After Stop returns no request is still being served and no accept / connection / request goroutine remains. *)
+    (nth_obs o 0 =? 1) && (nth_obs o 1 =? 0) && (nth_obs o 2 =? 0) && (nth_obs o 3 =? 0) && (nth_obs o 4 =? 0) &&
+    (nth_obs o 5 =? 0) && (nth_obs o 6 =? 0)
+  else if (kind =? 6) || (kind =? 7) then
+    (* Close / Unexport called while requests were inside a backend call: [ok; in flight at the return; request
+       goroutines; server goroutines; handles, attr, dir entries at the return; the same after quiescence; modifying
+       backend operations after the return; export server still attached].  The handle table and the caches are empty
+       and stay empty, and nothing of the server is left running. *)
+    (nth_obs o 0 =? 1) && forallb (fun i => nth_obs o i =? 0) [1; 2; 3; 4; 5; 6; 7; 8; 9; 10; 11]%nat
   else (* Close / Unexport: no error, no handles, empty caches, no export server; Close also stops the pool *)
     (nth_obs o 0 =? 0) && (nth_obs o 1 =? 0) && (nth_obs o 2 =? 0) && (nth_obs o 3 =? 0) && (nth_obs o 5 =? 0)
     && (if kind =? 3 then nth_obs o 4 =? 0 else true).
